@@ -83,7 +83,15 @@ fn mutator(rng: &mut Rng, scope: &Scope, v: &Var, siblings: &[Var]) -> Option<St
             Class::Bool => SStmt::Tog(base),
             Class::Int => {
                 let k = if STYS[*i].io == Some('B') { 1 } else { rng.range(1, 3) };
-                SStmt::Inc(base, k, *i)
+                // untyped literal: SINT/INT operands are computed in DINT and the result is stored
+                // as it is, so the variable holds a DINT afterwards (not for AT-bound variables:
+                // the image coercion of a drifted value is outside the model)
+                let narrow = STYS[*i].tag == 2 || STYS[*i].tag == 3;
+                if (!narrow || v.at.is_none()) && rng.chance(if narrow { 1 } else { 0 } + 1, 4) {
+                    SStmt::IncU(base, k)
+                } else {
+                    SStmt::Inc(base, k, *i)
+                }
             }
             Class::Lit => {
                 let ls = lits(*i);
@@ -100,6 +108,7 @@ fn mutator(rng: &mut Rng, scope: &Scope, v: &Var, siblings: &[Var]) -> Option<St
             SStmt::Set(base, ls[j].0.clone(), ls[j].1.clone())
         }
         Ty::S1 => match rng.below(4) {
+            0 if rng.chance(1, 3) => SStmt::IncU(with(vec![Seg::F("a".into())]), rng.range(1, 3)),
             0 => SStmt::Inc(with(vec![Seg::F("a".into())]), rng.range(1, 3), ST_INT),
             1 => SStmt::Tog(with(vec![Seg::F("b".into())])),
             2 => {
@@ -113,6 +122,7 @@ fn mutator(rng: &mut Rng, scope: &Scope, v: &Var, siblings: &[Var]) -> Option<St
             }
         },
         Ty::S2 => SStmt::Inc(with(vec![Seg::F("x".into())]), rng.range(1, 3), ST_LINT),
+        Ty::ArrInt(lo, hi) if rng.chance(1, 3) => SStmt::IncU(with(vec![Seg::I(vec![rng.range(*lo, *hi)])]), rng.range(1, 3)),
         Ty::ArrInt(lo, hi) => SStmt::Inc(with(vec![Seg::I(vec![rng.range(*lo, *hi)])]), rng.range(1, 3), ST_INT),
         Ty::Arr2 => SStmt::Inc(with(vec![Seg::I(vec![rng.range(0, 1), rng.range(0, 2)])]), rng.range(1, 3), ST_DINT),
         Ty::ArrS1 => {
@@ -129,15 +139,15 @@ fn mutator(rng: &mut Rng, scope: &Scope, v: &Var, siblings: &[Var]) -> Option<St
 
 fn gen_fb(rng: &mut Rng, idx: usize, alloc: &mut Alloc, allow_at: bool) -> FbType {
     let mut members = vec![
-        Var { name: "inc".into(), ty: Ty::S(ST_INT), pol: Pol::U, init: None, at: None, block: "VAR_INPUT" },
-        Var { name: "tot".into(), ty: Ty::S(ST_INT), pol: Pol::U, init: None, at: None, block: "VAR_OUTPUT" },
+        Var { name: "inc".into(), ty: Ty::S(ST_INT), pol: Pol::U, init: None, at: None, block: "VAR_INPUT", init_expr: None },
+        Var { name: "tot".into(), ty: Ty::S(ST_INT), pol: Pol::U, init: None, at: None, block: "VAR_OUTPUT", init_expr: None },
     ];
     let nvars = 1 + rng.below(3) as usize;
     for k in 0..nvars {
         let ty = if rng.chance(2, 3) { Ty::S(*rng.pick(&[1usize, 2, 3, 0, 6, 15, 23])) } else { pick_value_ty(rng) };
         let ty = if ty == Ty::ArrS1 { Ty::S1 } else { ty };
         let init = pick_init(rng, &ty);
-        members.push(Var { name: format!("m{k}"), ty, pol: pick_pol(rng), init, at: None, block: "VAR" });
+        members.push(Var { name: format!("m{k}"), ty, pol: pick_pol(rng), init, at: None, block: "VAR", init_expr: None });
     }
     if allow_at && rng.chance(1, 2) {
         let (sty, size) = *rng.pick(&[(ST_INT, 'W'), (ST_BOOL, 'X'), (ST_DINT, 'D')]);
@@ -148,8 +158,7 @@ fn gen_fb(rng: &mut Rng, idx: usize, alloc: &mut Alloc, allow_at: bool) -> FbTyp
             pol: Pol::U,
             init: None,
             at: Some(alloc.take(area, size)),
-            block: "VAR",
-        });
+            block: "VAR", init_expr: None });
     }
     let mut body = Vec::new();
     let vars: Vec<Var> = members[2..].to_vec();
@@ -196,7 +205,7 @@ pub fn gen_case(rng: &mut Rng, steps: usize) -> (Case, Profile) {
         };
         let ty = if ty == Ty::ArrS1 { Ty::S1 } else { ty };
         let init = pick_init(rng, &ty);
-        globals.push(Var { name: format!("g{k}"), ty, pol: pick_pol(rng), init, at: None, block: "VAR_GLOBAL" });
+        globals.push(Var { name: format!("g{k}"), ty, pol: pick_pol(rng), init, at: None, block: "VAR_GLOBAL", init_expr: None });
     }
     // direct-address globals (bindings with Global location: stay connected)
     let nio = rng.below(4) as usize;
@@ -211,6 +220,7 @@ pub fn gen_case(rng: &mut Rng, steps: usize) -> (Case, Profile) {
             init,
             at: Some(alloc.take(area, size)),
             block: "VAR_GLOBAL",
+            init_expr: None,
         });
     }
     // tasks and their SINGLE variables
@@ -231,6 +241,7 @@ pub fn gen_case(rng: &mut Rng, steps: usize) -> (Case, Profile) {
                     init: if init_true { Some(0) } else if rng.bool() { Some(1) } else { None },
                     at,
                     block: "VAR_GLOBAL",
+                    init_expr: None,
                 });
                 Some(globals.len() - 1)
             } else {
@@ -248,6 +259,14 @@ pub fn gen_case(rng: &mut Rng, steps: usize) -> (Case, Profile) {
     // ---- programs
     let nprogs = if config_mode { 1 + rng.below(3) as usize } else { 1 };
     let mut progs: Vec<Prog> = Vec::new();
+    // globals an initialiser expression may read: plain INT/DINT/LINT without a direct address
+    let expr_srcs: Vec<usize> = globals
+        .iter()
+        .enumerate()
+        .filter(|(_, g)| g.at.is_none() && matches!(g.ty, Ty::S(i) if i == ST_INT || i == ST_DINT || i == ST_LINT))
+        .map(|(i, _)| i)
+        .collect();
+    let mut expr_uses: Vec<Vec<usize>> = Vec::new();
     for pi in 0..nprogs {
         let inst = if config_mode { format!("P{pi}") } else { format!("Prog{pi}") };
         let mut vars: Vec<Var> = Vec::new();
@@ -260,7 +279,7 @@ pub fn gen_case(rng: &mut Rng, steps: usize) -> (Case, Profile) {
             };
             let init = pick_init(rng, &ty);
             let block = if ty.is_fb() { "VAR" } else { *rng.pick(&["VAR", "VAR", "VAR", "VAR", "VAR", "VAR_OUTPUT", "VAR_OUTPUT", "VAR_INPUT"]) };
-            vars.push(Var { name: format!("v{pi}_{k}"), ty, pol: pick_pol(rng), init, at: None, block });
+            vars.push(Var { name: format!("v{pi}_{k}"), ty, pol: pick_pol(rng), init, at: None, block, init_expr: None });
         }
         if inst_bind {
             // program-level direct-address variables: bindings with Instance location
@@ -274,9 +293,55 @@ pub fn gen_case(rng: &mut Rng, steps: usize) -> (Case, Profile) {
                     init: None,
                     at: Some(alloc.take(area, size)),
                     block: "VAR",
+                    init_expr: None,
                 });
             }
         }
+        // initialisers that are expressions over globals, earlier variables and typed literals
+        let mut uses: Vec<usize> = Vec::new();
+        if !expr_srcs.is_empty() && rng.chance(1, 2) {
+            for k in 0..1 + rng.below(2) as usize {
+                let gi = *rng.pick(&expr_srcs);
+                let Ty::S(sty) = globals[gi].ty.clone() else { continue };
+                let g = || Box::new(IExpr::G(globals[gi].name.clone()));
+                let earlier: Vec<String> = vars
+                    .iter()
+                    .filter(|u| u.ty == Ty::S(sty) && u.at.is_none())
+                    .map(|u| u.name.clone())
+                    .collect();
+                let other: Vec<usize> = expr_srcs.iter().copied().filter(|o| *o != gi && globals[*o].ty == Ty::S(sty)).collect();
+                let e = match rng.below(6) {
+                    0 => *g(),
+                    1 => IExpr::Add(g(), Box::new(IExpr::K(rng.range(1, 9)))),
+                    2 => IExpr::Mul(g(), Box::new(IExpr::K(rng.range(2, 3)))),
+                    3 if !earlier.is_empty() => IExpr::Add(g(), Box::new(IExpr::L(rng.pick(&earlier).clone()))),
+                    4 if !other.is_empty() => {
+                        let o = *rng.pick(&other);
+                        uses.push(o);
+                        IExpr::Add(Box::new(IExpr::Mul(g(), Box::new(IExpr::K(2)))), Box::new(IExpr::G(globals[o].name.clone())))
+                    }
+                    5 if !earlier.is_empty() => IExpr::Add(Box::new(IExpr::L(rng.pick(&earlier).clone())), Box::new(IExpr::K(rng.range(1, 9)))),
+                    _ => IExpr::Mul(g(), Box::new(IExpr::K(2))),
+                };
+                let mut gs = Vec::new();
+                e.globals(&mut gs);
+                if !gs.is_empty() {
+                    uses.push(gi);
+                }
+                vars.push(Var {
+                    name: format!("x{pi}_{k}"),
+                    ty: Ty::S(sty),
+                    pol: pick_pol(rng),
+                    init: None,
+                    at: None,
+                    block: *rng.pick(&["VAR", "VAR", "VAR_OUTPUT"]),
+                    init_expr: Some(e),
+                });
+            }
+        }
+        uses.sort();
+        uses.dedup();
+        expr_uses.push(uses);
         progs.push(Prog {
             ty_name: format!("Prog{pi}"),
             inst,
@@ -342,7 +407,12 @@ pub fn gen_case(rng: &mut Rng, steps: usize) -> (Case, Profile) {
             let is_single = single_globals.contains(&gi);
             let is_input = g.at.as_ref().map(|a| a.area == 'I').unwrap_or(false);
             let p_use = if is_single { 2 } else { 3 };
-            if !rng.chance(1, p_use) {
+            let read_by_init = expr_uses[pi].contains(&gi);
+            if read_by_init {
+                // declared VAR_EXTERNAL in any case; mostly also changed at run time
+                ext.push(gi);
+            }
+            if !(read_by_init && rng.chance(3, 4)) && !rng.chance(1, p_use) {
                 continue;
             }
             if is_input {
@@ -463,7 +533,7 @@ pub fn gen_case(rng: &mut Rng, steps: usize) -> (Case, Profile) {
         for p in &progs {
             for v in &p.vars {
                 if let Ty::S(i) = &v.ty {
-                    if v.at.is_none() && lits(*i).len() >= 2 {
+                    if v.at.is_none() && v.init_expr.is_none() && lits(*i).len() >= 2 {
                         cands.push((Tgt::var(Scope::P(p.inst.clone()), &v.name), v.ty.clone()));
                     }
                 }
@@ -602,6 +672,19 @@ pub fn gen_case(rng: &mut Rng, steps: usize) -> (Case, Profile) {
         history.push(step);
     }
     history.push(Step::Cycle(10_000_000));
+    if rng.chance(1, 5) {
+        // the tail of the history runs through a resource thread: restart requests reach its
+        // restart signal before it starts, while it is idle, or while it carries out a restart
+        let mut script: Vec<(When, Mode)> = Vec::new();
+        for _ in 0..rng.below(3) {
+            script.push((When::Pre, *rng.pick(&[Mode::Warm, Mode::Cold])));
+        }
+        for _ in 0..1 + rng.below(3) {
+            let when = if script.is_empty() || rng.chance(1, 3) { When::Idle } else { When::During };
+            script.push((when, *rng.pick(&[Mode::Warm, Mode::Cold])));
+        }
+        history.push(Step::Sched(script));
+    }
 
     (
         Case {
